@@ -22,6 +22,7 @@ inductive Node where
   | rdf (name : String)
   | rdfs (name : String)
   | b (n : Nat)             -- blank node
+  | res (name : String)     -- a workflow resource / the workflow itself
   deriving Repr, DecidableEq, Inhabited
 
 abbrev Triple := Node × Node × Node
@@ -61,6 +62,7 @@ structure GState where
   nextB : Nat := 0
   typeNodes : List (Term × Node) := []
   srcNodes : List (Nat × Nat) := []        -- `expr_nodes` restricted to sources: source id ↦ concept node
+  sharedNodes : List (Nat × Nat) := []     -- `expr_nodes` for shared expression objects (workflow resources): key ↦ concept node
   internals : List (Nat × Nat) := []       -- the `tf:internal` triples (also in `triples`)
   fd : FD := {}
   supertyped : List Ty := []
@@ -316,6 +318,14 @@ def addExpr (G : GLang) (c : GCfg) (root : Node) (origin : Option Node) :
           | some o => if c.withWorkflowOrigin then g.add (.b cur, .tf "origin", o) else g
           | none => g
         .ok (g, cur)
+
+  | g, .shared k e, current, intermediate =>
+    match g.sharedNodes.find? (fun p => p.1 == k) with
+    | some p => .ok (g, p.2)
+    | none =>
+      match addExpr G c root origin g e current intermediate with
+      | .error err => .error err
+      | .ok (g, n) => .ok ({ g with sharedNodes := g.sharedNodes ++ [(k, n)] }, n)
 
 /-- all triples of the graph, `from`/`depends` included -/
 def GState.allTriples (g : GState) : List Triple :=
